@@ -65,7 +65,7 @@ def run(ctx):
     return ctx.finish(rule='exhaustive TLC of Election.tla (3 contenders, 12 steps: campaign, lease expiry, resign, record deletion, guarded writes); '
                            'TLC -simulate behaviours replayed with real etcd leases on real Member/Leadership/AllocatorManager/id.Allocator '
                            'objects (24 behaviours in parallel; every second expiry after a deliberately slow keep-alive reply); guarded writes: '
-                           'time window, member priority, id window, dc-location data; Mon_Election.tla decides')
+                           'time window, member priority, id window, dc-location data, encryption keys (real key manager); Mon_Election.tla decides')
 
 
 def replay(ctx, path):
